@@ -8,6 +8,7 @@ HARNESS = r'''
 #include <vector>
 #include <algorithm>
 #include <csignal>
+#include <cmath>
 namespace c13 {
 typedef __int128 i128;
 
@@ -79,7 +80,7 @@ template <class R, class S> struct Def<R, S, false> {
     template <class Mk, class R, class S> static auto au(Mk mk, R a, S b) { return mk(a) OP mk(b); } \
     template <class R, class S> static auto raw(R a, S b) { return a OP b; } };
 #define C13_UN(NAME, OP, KIND) struct NAME { C13_HEAD(NAME, KIND, true) \
-    template <class Mk, class R, class S> static auto au(Mk mk, R a, S) { return (OP mk(a)).in(mk); } \
+    template <class Mk, class R, class S> static auto au(Mk mk, R a, S) { const auto q = mk(a); return (OP q).in(mk); } \
     template <class R, class S> static auto raw(R a, S) { return OP a; } };
 #define C13_ASG(NAME, OP, KIND) struct NAME { C13_HEAD(NAME, KIND, false) \
     template <class Mk, class R, class S> static auto au(Mk mk, R a, S b) { auto q = mk(a); q OP mk(b); return q.in(mk); } \
@@ -99,6 +100,41 @@ C13_UN(pos, +, K_POS) C13_UN(neg, -, K_NEG)
 C13_ASG(addeq, +=, K_ADD) C13_ASG(subeq, -=, K_SUB)
 C13_SCQ(mul_qs, *, K_MUL) C13_SCS(mul_sq, *, K_MUL) C13_SCQ(div_qs, /, K_DIV)
 C13_SCA(muleq, *=, K_MUL) C13_SCA(diveq, /=, K_DIV)
+
+// ---- same-unit QuantityPoint operators (p, q: points; d: Quantity of the same unit and rep) -------------------
+template <class Mk> using PM = au::QuantityPointMaker<typename Mk::Unit>;
+#define C13_PCMP(NAME, OP) struct NAME { C13_HEAD(NAME, K_CMP, false) \
+    template <class Mk, class R, class S> static auto au(Mk, R a, S b) { const PM<Mk> pm{}; const auto p = pm(a), q = pm(b); return p OP q; } \
+    template <class R, class S> static auto raw(R a, S b) { return a OP b; } };
+#define C13_PDIFF(NAME, OP, KIND) struct NAME { C13_HEAD(NAME, KIND, false) \
+    template <class Mk, class R, class S> static auto au(Mk mk, R a, S b) { const PM<Mk> pm{}; const auto p = pm(a), q = pm(b); return (p OP q).in(mk); } \
+    template <class R, class S> static auto raw(R a, S b) { return a OP b; } };
+#define C13_PQ(NAME, OP, KIND) struct NAME { C13_HEAD(NAME, KIND, false) \
+    template <class Mk, class R, class S> static auto au(Mk mk, R a, S b) { const PM<Mk> pm{}; const auto p = pm(a); const auto d = mk(b); return (p OP d).in(pm); } \
+    template <class R, class S> static auto raw(R a, S b) { return a OP b; } };
+#define C13_QP(NAME, OP, KIND) struct NAME { C13_HEAD(NAME, KIND, false) \
+    template <class Mk, class R, class S> static auto au(Mk mk, R a, S b) { const PM<Mk> pm{}; const auto p = pm(a); const auto d = mk(b); return (d OP p).in(pm); } \
+    template <class R, class S> static auto raw(R a, S b) { return b OP a; } };
+#define C13_PASG(NAME, AOP, ROP, KIND) struct NAME { C13_HEAD(NAME, KIND, false) \
+    template <class Mk, class R, class S> static auto au(Mk mk, R a, S b) { const PM<Mk> pm{}; auto p = pm(a); const auto d = mk(b); p AOP d; return p.in(pm); } \
+    template <class R, class S> static auto raw(R a, S b) { return a ROP b; } };   /* the un-narrowed raw result: only representable ones are judged */
+C13_PCMP(pt_eq, ==) C13_PCMP(pt_ne, !=) C13_PCMP(pt_lt, <) C13_PCMP(pt_le, <=) C13_PCMP(pt_gt, >) C13_PCMP(pt_ge, >=)
+C13_PDIFF(pt_sub, -, K_SUB) C13_PQ(pt_add_pd, +, K_ADD) C13_QP(pt_add_dp, +, K_ADD) C13_PQ(pt_sub_pd, -, K_SUB)
+C13_PASG(pt_addeq, +=, +, K_ADD) C13_PASG(pt_subeq, -=, -, K_SUB)
+// numerically the same value (sign of zero ignored, NaN == NaN): the point operators are judged on value only
+template <class A, class B, bool Int = std::is_integral<A>::value && std::is_integral<B>::value> struct Num;
+template <class A, class B> struct Num<A, B, true> { static bool eq(A a, B b) { return (i128)a == (i128)b; } };
+template <class A, class B> struct Num<A, B, false> { static bool eq(A a, B b) { return (long double)a == (long double)b || (is_nan(a) && is_nan(b)); } };
+// point operators are judged where the raw operation is defined AND its result is a value of R
+template <class R, bool I = std::is_integral<R>::value> struct PtOk { static bool ok(Kind, R, R) { return true; } };
+template <class R> struct PtOk<R, true> {
+    static bool ok(Kind k, R a, R b) {
+        if (k == K_CMP) return true;
+        if (!Def<R, R>::ok(k, a, b)) return false;
+        const auto r = k == K_ADD ? a + b : a - b;   // the raw operator (defined: checked above), in the promoted type
+        return (i128)r >= (i128)std::numeric_limits<R>::min() && (i128)r <= (i128)std::numeric_limits<R>::max();
+    }
+};
 
 // ---- value alphabets (enumeration only; no expectations) ------------------------------------------------
 template <class R> std::vector<R> vals_all() {   // every value of an 8/16-bit rep
@@ -268,33 +304,129 @@ template <class Op, class R, class Mk> void sweep(const char *unit, Mk mk) {
     else sweep_on<Op, Mk, R>(unit, mk, pair_vals<R>(), pair_vals<R>());
 }
 
-// unit(x).in(unit) must return x bit-for-bit (two spellings of the unit slot)
-template <class Mk, class R> struct RT {
-    const char *unit; Mk mk; unsigned long long evals = 0, bad = 0; int shown = 0;
-    void one(R x) {
-        const R y = mk(x).in(mk);
-        const R z = mk(x).in(typename Mk::Unit{});
+// the point operators: value only, on operand pairs whose raw result is defined and is a value of R
+template <class Op, class R, class Mk> void sweep_pt(const char *unit, Mk mk) {
+    unsigned long long evals = 0, skipped = 0, bad = 0;
+    bool have = false, varied = false;
+    int shown = 0;
+    typedef decltype(Op::raw(R{}, R{})) W;
+    typedef decltype(Op::au(mk, R{}, R{})) G;
+    W first{};
+    const std::vector<R> &av = pair_vals<R>();
+    for (R a : av) for (R b : av) {
+        if (!PtOk<R>::ok(Op::kind, a, b)) { ++skipped; continue; }
+        const W want = Op::raw(a, b);
+        const G got = Op::au(mk, a, b);
         ++evals;
-        if (!bits_eq(x, y) || !bits_eq(x, z)) {
+        if (!have) { first = want; have = true; } else if (!varied && !Num<W, W>::eq(want, first)) varied = true;
+        if (!Num<G, W>::eq(got, want)) {
             ++bad;
             if (shown++ < 3)
-                std::printf("V {\"unit\":\"%s\",\"rep\":\"%s\",\"op\":\"roundtrip\",\"a\":\"%s\",\"b\":\"\",\"ah\":\"%s\",\"bh\":\"\",\"got\":\"%s\",\"want\":\"%s\",\"got_t\":\"%s\",\"want_t\":\"%s\"}\n",
-                            unit, TN<R>::n().c_str(), Str<R>::s(x).c_str(), Str<R>::h(x).c_str(),
-                            Str<R>::s(bits_eq(x, y) ? z : y).c_str(), Str<R>::s(x).c_str(), TN<R>::n().c_str(), TN<R>::n().c_str());
+                std::printf("V {\"unit\":\"%s\",\"rep\":\"%s\",\"op\":\"%s\",\"a\":\"%s\",\"b\":\"%s\",\"ah\":\"%s\",\"bh\":\"%s\",\"got\":\"%s\",\"want\":\"%s\",\"got_t\":\"%s\",\"want_t\":\"%s\"}\n",
+                            unit, TN<R>::n().c_str(), Op::name(), Str<R>::s(a).c_str(), Str<R>::s(b).c_str(),
+                            Str<R>::h(a).c_str(), Str<R>::h(b).c_str(), Str<G>::h(got).c_str(), Str<W>::h(want).c_str(),
+                            TN<G>::n().c_str(), TN<W>::n().c_str());
         }
+    }
+    std::printf("S {\"k\":\"pt\",\"unit\":\"%s\",\"rep\":\"%s\",\"op\":\"%s\",\"evals\":%llu,\"skipped\":%llu,\"bad\":%llu,\"varied\":%d}\n",
+                unit, TN<R>::n().c_str(), Op::name(), evals, skipped, bad, (int)varied);
+}
+
+// unit(x).in(unit) must return x bit-for-bit.  Spellings of the construction side: maker call (prvalue and const
+// lvalue), au::make_quantity<U>(x), x * unit symbol (where the library defines a symbol); of the read side:
+// .in(maker), .in(U{}), .in<R>(maker) (explicit-rep overload), .data_in(maker), .in(symbol)
+struct NoSym {};
+template <class Mk, class R> inline bool sym_rt(Mk, NoSym, R, R &) { return true; }
+template <class Mk, class Sy, class R> inline bool sym_rt(Mk mk, Sy sy, R x, R &out) {
+    const auto q = x * sy;
+    const R t = q.in(sy);
+    if (!bits_eq(x, t)) { out = t; return false; }
+    const R t2 = mk(x).in(sy);
+    if (!bits_eq(x, t2)) { out = t2; return false; }
+    return true;
+}
+template <class Mk, class Sy, class R> struct RT {
+    const char *unit; Mk mk; Sy sy; unsigned long long evals = 0, bad = 0; int shown = 0; bool quiet = false; std::string last;
+    void fail(R x, R got) {
+        ++bad;
+        last = Str<R>::s(got);
+        if (!quiet && shown++ < 3)
+            std::printf("V {\"unit\":\"%s\",\"rep\":\"%s\",\"op\":\"roundtrip\",\"a\":\"%s\",\"b\":\"\",\"ah\":\"%s\",\"bh\":\"\",\"got\":\"%s\",\"want\":\"%s\",\"got_t\":\"%s\",\"want_t\":\"%s\"}\n",
+                        unit, TN<R>::n().c_str(), Str<R>::s(x).c_str(), Str<R>::h(x).c_str(),
+                        Str<R>::s(got).c_str(), Str<R>::s(x).c_str(), TN<R>::n().c_str(), TN<R>::n().c_str());
+    }
+    void one(R x) {
+        typedef typename Mk::Unit U;
+        ++evals;
+        const auto q = mk(x);
+        const R y0 = mk(x).in(mk);            if (!bits_eq(x, y0)) return fail(x, y0);
+        const R y1 = mk(x).in(U{});           if (!bits_eq(x, y1)) return fail(x, y1);
+        const R y2 = q.in(mk);                if (!bits_eq(x, y2)) return fail(x, y2);
+        const R y3 = q.template in<R>(mk);    if (!bits_eq(x, y3)) return fail(x, y3);
+        const R y4 = q.data_in(mk);           if (!bits_eq(x, y4)) return fail(x, y4);
+        const R y5 = au::make_quantity<U>(x).in(mk);   if (!bits_eq(x, y5)) return fail(x, y5);
+        R y6 = x;                             if (!sym_rt(mk, sy, x, y6)) return fail(x, y6);
     }
     void done() { std::printf("S {\"k\":\"rt\",\"unit\":\"%s\",\"rep\":\"%s\",\"op\":\"roundtrip\",\"evals\":%llu,\"skipped\":0,\"bad\":%llu,\"varied\":1}\n",
                               unit, TN<R>::n().c_str(), evals, bad); }
 };
-template <class Mk, class R, bool I = std::is_integral<R>::value> struct RTAll {
-    static void run(const char *unit, Mk mk) { RT<Mk, R> rt{unit, mk}; each_fp<R>(1, [&](R x) { rt.one(x); }); rt.done(); } };
-template <class Mk, class R> struct RTAll<Mk, R, true> {
-    static void run(const char *unit, Mk mk) { RT<Mk, R> rt{unit, mk}; for (R x : (sizeof(R) <= 2 ? vals_all<R>() : vals_edge<R>(4096))) rt.one(x); rt.done(); } };
-template <class R, class Mk> void roundtrip(const char *unit, Mk mk) { RTAll<Mk, R>::run(unit, mk); }
+template <class Mk, class Sy, class R, bool I = std::is_integral<R>::value> struct RTAll {
+    static void run(const char *unit, Mk mk, Sy sy) { RT<Mk, Sy, R> rt{unit, mk, sy}; each_fp<R>(1, [&](R x) { rt.one(x); }); rt.done(); } };
+template <class Mk, class Sy, class R> struct RTAll<Mk, Sy, R, true> {
+    static void run(const char *unit, Mk mk, Sy sy) { RT<Mk, Sy, R> rt{unit, mk, sy}; for (R x : (sizeof(R) <= 2 ? vals_all<R>() : vals_edge<R>(4096))) rt.one(x); rt.done(); } };
+template <class R, class Mk, class Sy> void roundtrip(const char *unit, Mk mk, Sy sy) { RTAll<Mk, Sy, R>::run(unit, mk, sy); }
+
+// ptmaker(x).in(ptmaker): QuantityPoint::in(u) adds the origin displacement (Zero -> 0 for the same unit), so a
+// negative zero comes back as +0 and a signalling NaN comes back quiet.  The statement's clause is spelled
+// unit(x).in(unit) (the quantity maker): those two families are counted as not judged; anything else must be exact.
+template <class R> inline R with_quiet(R x) {
+    unsigned char buf[16] = {0};
+    std::memcpy(buf, &x, vbytes<R>());
+    const int bit = FP<R>::FB - 1;
+    buf[bit / 8] = (unsigned char)(buf[bit / 8] | (1u << (bit % 8)));
+    std::memcpy(&x, buf, vbytes<R>());
+    return x;
+}
+template <class R, bool I = std::is_integral<R>::value> struct Benign {
+    static bool ok(R x, R y) {
+        if (x == 0 && y == 0 && std::signbit(x) && !std::signbit(y)) return true;            // -0 -> +0
+        if (is_nan(x) && !bits_eq(x, with_quiet(x)) && bits_eq(y, with_quiet(x))) return true;   // sNaN -> the same NaN, quiet
+        return false;
+    }
+};
+template <class R> struct Benign<R, true> { static bool ok(R, R) { return false; } };
+template <class Pm, class R> struct RTP {
+    const char *unit; Pm pm; unsigned long long evals = 0, bad = 0, notjudged = 0; int shown = 0; bool quiet = false; std::string last;
+    void one(R x) {
+        ++evals;
+        const auto p = pm(x);
+        const R y = p.in(pm);
+        if (bits_eq(x, y)) return;
+        if (Benign<R>::ok(x, y)) { ++notjudged; return; }
+        ++bad;
+        last = Str<R>::s(y);
+        if (!quiet && shown++ < 3)
+            std::printf("V {\"unit\":\"%s\",\"rep\":\"%s\",\"op\":\"roundtrip_pt\",\"a\":\"%s\",\"b\":\"\",\"ah\":\"%s\",\"bh\":\"\",\"got\":\"%s\",\"want\":\"%s\",\"got_t\":\"%s\",\"want_t\":\"%s\"}\n",
+                        unit, TN<R>::n().c_str(), Str<R>::s(x).c_str(), Str<R>::h(x).c_str(),
+                        Str<R>::s(y).c_str(), Str<R>::s(x).c_str(), TN<R>::n().c_str(), TN<R>::n().c_str());
+    }
+    void done() { std::printf("S {\"k\":\"rtp\",\"unit\":\"%s\",\"rep\":\"%s\",\"op\":\"roundtrip_pt\",\"evals\":%llu,\"skipped\":0,\"bad\":%llu,\"notjudged\":%llu,\"varied\":1}\n",
+                              unit, TN<R>::n().c_str(), evals, bad, notjudged); }
+};
+template <class Pm, class R, bool I = std::is_integral<R>::value> struct RTPAll {
+    static void run(const char *unit, Pm pm) { RTP<Pm, R> rt{unit, pm}; each_fp<R>(1, [&](R x) { rt.one(x); }); rt.done(); } };
+template <class Pm, class R> struct RTPAll<Pm, R, true> {
+    static void run(const char *unit, Pm pm) { RTP<Pm, R> rt{unit, pm}; for (R x : (sizeof(R) <= 2 ? vals_all<R>() : vals_edge<R>(4096))) rt.one(x); rt.done(); } };
+template <class R, class Pm> void roundtrip_pt(const char *unit, Pm pm) { RTPAll<Pm, R>::run(unit, pm); }
 
 // every bit pattern of float in [lo, hi)
-template <class Mk> void roundtrip_f32(const char *unit, Mk mk, unsigned long long lo, unsigned long long hi) {
-    RT<Mk, float> rt{unit, mk};
+template <class Mk, class Sy> void roundtrip_f32(const char *unit, Mk mk, Sy sy, unsigned long long lo, unsigned long long hi) {
+    RT<Mk, Sy, float> rt{unit, mk, sy};
+    for (unsigned long long b = lo; b < hi; ++b) { const std::uint32_t u = (std::uint32_t)b; float x; std::memcpy(&x, &u, 4); rt.one(x); }
+    rt.done();
+}
+template <class Pm> void roundtrip_pt_f32(const char *unit, Pm pm, unsigned long long lo, unsigned long long hi) {
+    RTP<Pm, float> rt{unit, pm};
     for (unsigned long long b = lo; b < hi; ++b) { const std::uint32_t u = (std::uint32_t)b; float x; std::memcpy(&x, &u, 4); rt.one(x); }
     rt.done();
 }
